@@ -338,7 +338,7 @@ def throw_guarded(facts):
                     base = short(strip(obj).get('n', '')) if obj is not None and strip(obj).get('k') == 'MemberExpr' else ''
                     gf = guard_facts(fn, b, st)
                     txt = ' '.join(fact_str(f) for f in gf)
-                    guarded = ('capacity' in txt and 'size' in txt)
+                    guarded = has_room_fact(fn, gf)
                     if base == 'activenotes':
                         guarded = True      # key = note number <= 127, capacity 128 (checked by C04.R5)
                     if not guarded:
